@@ -3,6 +3,7 @@ pub mod cspec {
 use vstd::prelude::*;
 use crate::lower;
 
+pub open spec fn ostrv(o: Option<String>) -> Option<Seq<char>> { match o { Some(s) => Some(s@), None => None } }
 /// C06 statement: falsy exactly when absent, empty, '0', 'false' or 'no' (case-insensitive)
 pub open spec fn truthy(v: Option<Seq<char>>) -> bool {
     match v {
